@@ -952,13 +952,6 @@ def run(ctx):
         evaluate(ctx, corp, res)
     res['scopes']['corpus'] = len(corp)
     explore(ctx, res, ctx.deep)
-    # A source drift / broken obligation on the quick tier: lib/vcheck.py looks at quick depth
-    # first and repeats at thorough depth only when that pass recorded no violation at all -
-    # a listed known finding counts there, and C03 has one on every run.  So go deep here.
-    if not ctx.deep and ctx.deep_reasons and ctx.tier != 'thorough' and res['violations'] \
-            and not unexpected(ctx, res):
-        explore(ctx, res, True)
-        return res.finish(RULE, exhaustive=True)
     return res.finish(RULE, exhaustive=ctx.deep)
 
 
